@@ -8,6 +8,7 @@
  * Output: JSON object on stdout. */
 #define _GNU_SOURCE
 #include <errno.h>
+#include <sys/ioctl.h>
 #include <sys/mount.h>
 #include <fcntl.h>
 #include <grp.h>
@@ -78,6 +79,11 @@ int main(int argc, char **argv) {
     /* ---- stdin */
     const char *sin = kv(kvs, "stdin", "null"); long ptyowner = atol(kv(kvs, "ptyowner", "0"));
     if (!strcmp(sin, "pty")) { int m = posix_openpt(O_RDWR | O_NOCTTY); grantpt(m); unlockpt(m); const char *sn = ptsname(m); if (chown(sn, ptyowner, 0)) {} int s = open(sn, O_RDWR | O_NOCTTY); dup2(s, 0); close(s); }
+    else if (!strcmp(sin, "ptylong")) { /* a pty of a private devpts instance mounted far away from /dev/pts: its device path is about 100 bytes long */
+        char d[PATH_MAX], pm[PATH_MAX + 16], sp[PATH_MAX + 32]; snprintf(d, sizeof d, "%s/devpts-instance-mounted-at-a-rather-long-path-0123456789-0123456789", kv(kvs, "work", "/tmp")); mkdir(d, 0755);
+        if (unshare(CLONE_NEWNS) || mount("none", "/", NULL, MS_REC | MS_PRIVATE, NULL) || mount("devpts", d, "devpts", 0, "newinstance,ptmxmode=0666,mode=0620")) { perror("private devpts"); return 3; }
+        snprintf(pm, sizeof pm, "%s/ptmx", d); int m = open(pm, O_RDWR | O_NOCTTY); if (m < 0) { perror(pm); return 3; } int unlock = 0, num = -1; ioctl(m, TIOCSPTLCK, &unlock); ioctl(m, TIOCGPTN, &num);
+        snprintf(sp, sizeof sp, "%s/%d", d, num); if (chown(sp, ptyowner, 0)) {} int sl = open(sp, O_RDWR | O_NOCTTY); if (sl < 0) { perror(sp); return 3; } dup2(sl, 0); close(sl); }
     else if (!strcmp(sin, "pipe")) { int p[2]; if (pipe(p)) return 3; dup2(p[0], 0); close(p[0]); }
     else if (!strcmp(sin, "closed")) close(0);
     else { int f = open("/dev/null", O_RDONLY); dup2(f, 0); close(f); }
